@@ -65,7 +65,10 @@ Populate(impl) == <<
 Fieldless == << NewOf("soft", "rt0", <<>>), Op("Copy", 1, "", "", V(0), "", NoDef, FALSE) >>
 \* a soft resource that was given no type at all (the zero value of the Go type)
 Typeless == << NewOf("soft", "", <<>>) >>
-Seeds == { <<>>, Populate("soft"), Populate("wrap"), Fieldless, Typeless,
+\* a resource with two to-many relationships, both holding ids
+Manys(impl) == << NewOf(impl, "rtm", TManys),
+                  Op("Set", 1, "", "m", Ids(<<"c", "b", "a">>), "", NoDef, FALSE), Op("Set", 1, "", "k", Ids(<<"b", "a", "d">>), "", NoDef, FALSE) >>
+Seeds == { <<>>, Populate("soft"), Populate("wrap"), Fieldless, Typeless, Manys("soft"), Manys("wrap"),
            Populate("soft") \o <<Op("Copy", 1, "", "", V(0), "", NoDef, FALSE)>>,
            Populate("wrap") \o <<Op("Copy", 1, "", "", V(0), "", NoDef, FALSE)>> }
 
